@@ -150,6 +150,15 @@ Definition alu_sem (op : alu) (w : nat) (a b : Z) : Z :=
   | AOther => 0
   end.
 
+(* where alu_sem claims to describe the CPU (and is compared with the host CPU on every run, tools/checks/c05.py "alu"):
+   everywhere for the logic/arithmetic/vector classes, only at count 0 for shifts and rotates, nowhere for untagged ids *)
+Definition alu_defined (op : alu) (b : Z) : bool :=
+  match op with
+  | AShl | AShr | ASar | ARol | ARor => Z.eqb b 0
+  | AOther => false
+  | _ => true
+  end.
+
 Lemma lanewise_const k s f c a a' : (forall x, f x x = c) -> lanewise k s f a a = lanewise k s f a' a'.
 Proof. intros H. induction k; cbn [lanewise]; [reflexivity|]. rewrite IHk, !H. reflexivity. Qed.
 
@@ -214,3 +223,16 @@ Qed.
 (* forms without an idiom never get one *)
 Theorem idiom_of_none_default op i w : idiom_of op false None w = INone /\ idiom_of AOther true i w = INone.
 Proof. split; [destruct op; reflexivity | destruct i; reflexivity]. Qed.
+
+(* every idiom verdict other than "no idiom" is about an instance where alu_sem is specified (and therefore compared with the CPU) *)
+Theorem idiom_imm_defined op w i : idiom_of op false (Some i) w <> INone -> alu_defined op i = true.
+Proof.
+  destruct op; cbn; intros H; try reflexivity; try (exfalso; apply H; reflexivity);
+    destruct (Z.eqb i 0) eqn:E; try reflexivity; exfalso; apply H; reflexivity.
+Qed.
+
+Theorem idiom_same_defined op w b : idiom_of op true None w <> INone -> alu_defined op b = true.
+Proof. destruct op; cbn; intros H; try reflexivity; exfalso; apply H; reflexivity. Qed.
+
+Theorem idiom_other_none same imm w : idiom_of AOther same imm w = INone.
+Proof. destruct imm, same; reflexivity. Qed.
